@@ -203,7 +203,10 @@ def run(tier):
     if any(x != "ok" for x in out.values()):
         # an error in one item can hide nothing here (all are reported in one phase), keep the verdicts
         pass
-    out.update(compile_probe([(n, c["src"]) for n, c in exp_other[:nprobe]], "other"))
+    # every item the derive accepts but rustc has to refuse (`optional` on a field that is not an Option) is compiled
+    typeck = [(n, c) for n, c in exp_other if c["pred"] == "RejectAtTypeck"]
+    rest = [(n, c) for n, c in exp_other if c["pred"] != "RejectAtTypeck"]
+    out.update(compile_probe([(n, c["src"]) for n, c in typeck[:4000 if q else 40000] + rest[:nprobe]], "other"))
     # the real entry point on a sample of rejected items (one crate, all errors come from the derive)
     rej = [(n, c) for n, c in enumerate(cases) if c["real"] == "ERR" and not has_serde(c["item"])]
     rnd.shuffle(rej)
